@@ -10,7 +10,7 @@
    not proved per rule.  TypeInfo and the context caches are not modelled.
    [fuel] bounds the nesting depth; the hypothesis depth_tree doc <= fuel excludes OutOfFuel. *)
 From Coq Require Import Permutation.
-From GV Require Import Base.Prelude Lang.Visit Lang.VisitProps Valid.Compose Valid.ComposeProps.
+From GV Require Import Base.Prelude Lang.Visit Lang.VisitProps Lang.VisitParallelProps Valid.Compose Valid.ComposeProps.
 
 (* With an error limit n: the unlimited list if it has at most n errors, otherwise its first n
    errors followed by the abort notice. *)
